@@ -84,6 +84,13 @@ def cases(tier):
         yield Case("ladder:N=%d" % N, {"kind": "ladder", "N": N})
     for N in (4, 8):
         yield Case("intseed:N=%d" % N, {"kind": "intseed", "N": N})
+    # boundary values of the outer scale ("all L0"): infinite (pure Kolmogorov) and astronomically large
+    for L0 in (float("inf"), 1e12, 1e100):
+        t = (0.1, 0.2, L0, 0.01)
+        yield Case("ft:N=6:%s" % ("d=%g,r0=%g,L0=%g,l0=%g" % t), {"kind": "ft", "N": 6, "t": t, "plain_only": True})
+    # an accelerated transform passed in by the caller (FFT=...) must give the same screens as the default path
+    for N in (4, 8):
+        yield Case("fftarg:N=%d" % N, {"kind": "fftarg", "N": N})
     # the zero-frequency clause alone is cheap, so it is decided for EVERY even N up to a much larger bound
     top = 512 if tier == "quick" else 1536
     # the sub-harmonic part for grid sizes far beyond those whose full operator is extracted
@@ -158,6 +165,8 @@ def evaluate(p):
         return _shbig_case(o, ps, p["N"])
     if p["kind"] == "intseed":
         return _intseed_case(o, ps, p["N"])
+    if p["kind"] == "fftarg":
+        return _fftarg_case(o, ps, p["N"])
     N, t = p["N"], p["t"]
     delta, r0, L0, l0 = t
     n2 = N * N
@@ -431,5 +440,32 @@ def _intseed_case(o, ps, N):
         scale = float(numpy.max(numpy.abs(C_gen)))
         o.close("integer_seeded_ensemble_has_the_same_covariance", _maxabs(C_int - C_gen) / scale, 1e-10, sub=name,
                 detail="exact covariance over all draws of an integer-seeded stream vs over injected Generator draws")
+    o.stat("nontrivial", 1)
+    return o
+
+
+def _fftarg_case(o, ps, N):
+    """FFT=<inverse transform callable>: the optional accelerated-FFT argument takes an object that is called on
+    the shifted spectrum in place of numpy's inverse transform; with numpy.fft.ifft2 itself (and with a wrapper
+    of it) every unit draw must give the same screen as the default path, for the plain and the sub-harmonic
+    generator (even N)."""
+    from mc.env import SeqGenerator
+    delta, r0, L0, l0 = 0.1, 0.2, 25.0, 0.01
+    n2 = N * N
+
+    class Wrapped(object):
+        def __call__(self, a):
+            return numpy.fft.ifft2(a)
+    for name, fn, nz in (("plain", ps.ft_phase_screen, 2 * n2), ("subharmonic", ps.ft_sh_phase_screen, 2 * n2 + 54)):
+        worst = 0.0
+        for k in range(nz):
+            v = numpy.zeros(nz)
+            v[k] = 1.0
+            base = numpy.asarray(fn(r0, N, delta, L0, l0, seed=SeqGenerator(v)))
+            for fft in (numpy.fft.ifft2, Wrapped()):
+                got = numpy.asarray(fn(r0, N, delta, L0, l0, fft, seed=SeqGenerator(v)))
+                worst = max(worst, _maxabs(got - base) / max(_maxabs(base), 1e-300) if got.shape == base.shape else float("inf"))
+        o.stat("lib_calls", 3 * nz)
+        o.close("caller_supplied_fft_gives_the_same_screen", worst, 1e-12, sub=name)
     o.stat("nontrivial", 1)
     return o
